@@ -130,7 +130,8 @@ def alphabet(name):
             ARR("str", (3,), ["c", "", "e"]),
             ["list", [["list", [I(1), I(2)]], ["list", [I(3), I(4)]]]],
         ]
-    a += [["dict", {"a": F(1.0)}], ["dict", {"a": F(1.0), "b": F(2.0)}], ["dict", {}]]
+    # falsy values are boundary values for every kind (0, 0.0, "", [] above): also as dict values
+    a += [["dict", {"a": F(1.0)}], ["dict", {"a": F(0.0), "b": F(2.0)}], ["dict", {}]]
     a += [["flag", 3]]
     if name != "quick":
         a += [
